@@ -34,9 +34,10 @@ RULE = (
     "writes_per_chunk 1-4, header/footer None or size in {0,1,m-1,m,..}, min_part, max_part = exactly the ids the "
     "layout needs + slack in {0,1,50}, writer present or None, choice sequence for the schedule). L1 drives the real "
     "_mpu_append_chunks_op/_merge_and_spill_op/_mpu_collate_op/_finalizer_dask_op along the bracketing+interleaving "
-    "selected by the choice sequence; an exhaustive small-scope enumeration (<=3 chunks, all compositions into "
-    "partitions/bags, all bracketings, 4 sizes, 3-4 spill sizes, wpc 1-2, header/footer on/off) backs the random "
-    "search; L2 runs mpu_write(...).compute() on dask bags under a random-topological-order single-threaded get "
+    "selected by the choice sequence; an exhaustive small-scope enumeration (m=3; streams of <=3 chunks in quick, <=5 "
+    "in thorough, sizes from a pool around the thresholds {0,1,2,3,4,7,10,14}; every cut into partitions and <=3 bags; "
+    "every order of adjacent merges; spill in {0,3,4,7} (+{1,2}); wpc 1-3; 4 header/footer combinations; min_part 1 "
+    "(+4)) backs the random search; L2 runs mpu_write(...).compute() on dask bags under a random-topological-order single-threaded get "
     "and the threaded scheduler. Oracle: recording writer (bytes snapshotted at call time) and callbacks. "
     "Non-trivial: >=2 partitions and >=1 part written before finalisation, or a final-flagged partition with >=2 "
     "chunks, or a merge whose right side has already written; distinct = distinct case. The space is split into "
@@ -397,7 +398,8 @@ def _classify(L: Layout, T, stats: Optional[dict], nparts_written: int) -> None:
         if L.npartitions >= 2 and stats["before_final"] >= 1:
             nt = True
     else:
-        if L.npartitions >= 2 and nparts_written >= 2:
+        # finalisation itself writes at most two parts (tail + first part), a third one means an earlier spill
+        if L.npartitions >= 2 and nparts_written >= 3:
             nt = True
     if nt:
         T.nontrivial()
@@ -405,7 +407,11 @@ def _classify(L: Layout, T, stats: Optional[dict], nparts_written: int) -> None:
 
 def o_l1(case, T):
     L = Layout(case)
-    write, hdr, ftr, rr, stats, max_part = drive_l1(L, [int(x) for x in case.get("sched", [])])
+    sched = [int(x) for x in case.get("sched", [])]
+    if case.get("appends_first"):
+        # enumerated cases: "sched" lists merge picks only; all appends run first, in stream order
+        sched = _appends_first_schedule([len(b) for b in L.bags], sched)
+    write, hdr, ftr, rr, stats, max_part = drive_l1(L, sched)
     judge_callbacks(L, hdr, ftr)
     if write is None:
         judge_unwritten(L, rr, "L1")
@@ -656,16 +662,6 @@ def e_small(tier, edge: bool):
                                                 yield case
 
 
-def o_l1_enum(case, T):
-    """Same oracle as o_l1; the schedule is 'all appends in order, then merges picked by sched'."""
-    L = Layout(case)
-    sched = _appends_first_schedule([len(b) for b in L.bags], [int(x) for x in case["sched"]])
-    write, hdr, ftr, rr, stats, max_part = drive_l1(L, sched)
-    judge_callbacks(L, hdr, ftr)
-    judge_written(L, write, max_part, "L1")
-    _classify(L, T, stats, len(write.calls))
-
-
 def _appends_first_schedule(npart_per_bag: List[int], merge_picks: List[int]) -> List[int]:
     """Translate (append everything in stream order, then merges by pick index) into indices into the enabled-action
     list that drive_l1 builds."""
@@ -719,26 +715,26 @@ def _k_leftpart(sub, case, msg):
 
 def build(chk: Check) -> None:
     q = chk.tier == "quick"
-    chk.sub("enum_main", o_l1_enum, enum=lambda tier: e_small(tier, False), exhaustive_tiers=("quick", "thorough"),
+    chk.sub("enum_main", o_l1, enum=lambda tier: e_small(tier, False), exhaustive_tiers=("quick", "thorough"),
             budget_s={"quick": 40, "thorough": 700})
-    chk.sub("enum_edge", o_l1_enum, enum=lambda tier: e_small(tier, True), exhaustive_tiers=("quick", "thorough"),
+    chk.sub("enum_edge", o_l1, enum=lambda tier: e_small(tier, True), exhaustive_tiers=("quick", "thorough"),
             budget_s={"quick": 40, "thorough": 700})
     chk.sub("l1_main", o_l1, strategy=s_case((0, 0, 0)), n={"quick": 12000, "thorough": 1000000},
-            budget_s={"quick": 40, "thorough": 600})
+            budget_s={"quick": 60, "thorough": 600})
     chk.sub("l1_final_multi", o_l1, strategy=s_case((1, 0, 0)), n={"quick": 6000, "thorough": 400000},
-            budget_s={"quick": 25, "thorough": 300})
+            budget_s={"quick": 40, "thorough": 300})
     chk.sub("l1_small_spill", o_l1, strategy=s_case((0, 1, 0)), n={"quick": 5000, "thorough": 250000},
-            budget_s={"quick": 20, "thorough": 250})
+            budget_s={"quick": 35, "thorough": 250})
     chk.sub("l1_part_range", o_l1, strategy=s_case((0, 0, 1)), n={"quick": 3000, "thorough": 150000},
-            budget_s={"quick": 15, "thorough": 200})
+            budget_s={"quick": 30, "thorough": 200})
     chk.sub("l1_mixed", o_l1, strategy=s_case("mixed"), n={"quick": 5000, "thorough": 250000},
-            budget_s={"quick": 20, "thorough": 250})
+            budget_s={"quick": 35, "thorough": 250})
     chk.sub("l1_nowriter", o_l1, strategy=s_case((0, 0, 0), writer=False), n={"quick": 2000, "thorough": 60000},
-            budget_s={"quick": 15, "thorough": 100})
+            budget_s={"quick": 25, "thorough": 100})
     chk.sub("l2_dask", o_l2, strategy=s_case((0, 0, 0), l2=True), n={"quick": 700, "thorough": 20000},
-            budget_s={"quick": 30, "thorough": 400}, shrink=not q)
+            budget_s={"quick": 40, "thorough": 400}, shrink=not q)
     chk.sub("l2_dask_edge", o_l2, strategy=s_case("any", l2=True), n={"quick": 500, "thorough": 12000},
-            budget_s={"quick": 25, "thorough": 300}, shrink=not q)
+            budget_s={"quick": 35, "thorough": 300}, shrink=not q)
     chk.sub("l2_dask_nowriter", o_l2, strategy=s_case((0, 0, 0), writer=False, l2=True), n={"quick": 100, "thorough": 2000},
             budget_s={"quick": 10, "thorough": 60}, shrink=not q)
     chk.known("D15", _k_d15)
